@@ -81,20 +81,19 @@ MachineByKey == Tabulate({ << m.cloud, m.name >> : m \in MachineSet },
 HasMachine(cl, name) == << cl, name >> \in DOMAIN MachineByKey
 MachineRow(cl, name) == MachineByKey[<< cl, name >>]
 
-\* pool shapes the universe uses: power-of-two cores (InstanceConfig.quantified_resources asserts that for pools)
-\* whose VM type is in the machine table
+\* regular pool shapes: power-of-two cores (what InstanceConfig.quantified_resources demands of a pool) whose VM
+\* type is in the machine table.  The families and their memory per core are read off these.
 PoolWorkers == { w \in Range(Workers) : w.cores \in Pow2 /\ w.known }
+\* every other pool size the service's own pool-configuration form accepts (possible_cores_from_worker_type)
+OddWorkers  == { w \in Range(Workers) : w.cores \notin Pow2 }
 WorkerTypes(cl) == { w.type : w \in { x \in PoolWorkers : x.cloud = cl } }
-Shape(x) == << x.cloud, x.type, x.cores, x.ssd >>
-\* memory (MiB) of the VM a pool of that shape runs on
-WorkerMem == Tabulate({ Shape(w) : w \in PoolWorkers },
-                      LAMBDA k : LET w == CHOOSE x \in PoolWorkers : Shape(x) = k IN MachineRow(w.cloud, w.machine).mem_mib)
-WorkerMemMiB(p) == WorkerMem[Shape(p)]
 \* memory per core (MiB) of a worker family, read off one of its machines
 PerCore == Tabulate({ << w.cloud, w.type >> : w \in PoolWorkers },
                     LAMBDA k : LET w == CHOOSE x \in PoolWorkers : x.cloud = k[1] /\ x.type = k[2]
                                IN  MachineRow(k[1], w.machine).mem_mib \div w.cores)
 PerCoreMiB(cl, ty) == PerCore[<< cl, ty >>]
+\* memory (MiB) of one worker of pool p (TablesSane: for the regular shapes this is the machine table's figure)
+WorkerMemMiB(p) == p.cores * PerCoreMiB(p.cloud, p.type)
 
 \* The tables are as uniform as the arithmetic below assumes (checked by TLC before anything else).
 TablesSane ==
@@ -247,7 +246,7 @@ SizeSingles(cl) == { << SizePool(w) >> : w \in { x \in PoolWorkers : x.cloud = c
 SizePalette(cl) == { SizePool(w) : w \in { x \in PoolWorkers : x.cloud = cl /\ x.ssd /\ x.cores \in {2, 16} } }
 SizeMulti(cl) == { SetToSeq(S) : S \in { T \in SUBSET SizePalette(cl) :
                       /\ Cardinality(T) \in {2, 3}
-                      /\ (Level = "model" => Cardinality(T) = 3)
+                      /\ (Level = "model" => Cardinality(T) = 3 /\ Cardinality({ p.cores : p \in T }) = 1)
                       /\ (Level # "thorough" /\ Cardinality(T) = 3 => Cardinality({ p.type : p \in T }) = 3) } }
 SizeSuite(cl) == [name |-> "size-" \o cl,
                   cfgs |-> SetToSeq({ Cfg(cl, ps) : ps \in SizeSingles(cl) \cup SizeMulti(cl) }),
@@ -269,10 +268,17 @@ PrivSto == Pick({Amt(0, 0, ""), Amt(32769, 0, "Gi")},
                  Amt(65537, 0, "Gi")},
                 {Amt(0, 0, ""), Amt(1, 0, "Gi"), Amt(10, 1, "Gi"), Amt(375, 0, "G"), Amt(32, 0, "Ti"), Amt(32769, 0, "Gi"),
                  Amt(64, 0, "Ti"), Amt(65537, 0, "Gi"), Amt(100, 0, "T")})
-PrivReqs == { PrivReq(cl, m.name, sto, pre) : cl \in Clouds, m \in MachineSet, sto \in PrivSto, pre \in BOOLEAN }
+PrivReqs == { PrivReq(cl, m.name, sto, pre) : cl \in Clouds, m \in { x \in MachineSet : Level # "model" \/ x.cores <= 8 },
+                                              sto \in PrivSto, pre \in BOOLEAN }
 PrivSuite == [name |-> "private",
               cfgs |-> SetToSeq({ Cfg(jp, << Pool(jp, TierType(jp, "standard"), 16, TRUE, "", TRUE) >>) : jp \in Clouds }),
               reqs |-> SetToSeq(PrivReqs)]
 
-Suites == << SizeSuite("gcp"), SizeSuite("azure"), MatchSuite, PrivSuite >>
+\* -- pools of the remaining sizes the pool-configuration form accepts (96, 48, 20, 72 cores ...): one pool, a one-core
+\*    request by amount and by tier.  Empty when the service only accepts power-of-two pool sizes.
+OddSuite == [name |-> "odd-pools",
+             cfgs |-> SetToSeq({ Cfg(w.cloud, << Pool(w.cloud, w.type, w.cores, TRUE, "", w.ssd) >>) : w \in { x \in OddWorkers : x.ssd } }),
+             reqs |-> SetToSeq({ PoolReq(cl, 1000, t, Amt(1, 0, "Gi"), Amt(0, 0, ""), TRUE, "") : cl \in Clouds, t \in Tiers \cup {""} })]
+
+Suites == << SizeSuite("gcp"), SizeSuite("azure"), MatchSuite, PrivSuite, OddSuite >>
 =============================================================================
